@@ -110,16 +110,11 @@ Definition free_slot (x : actor) : bool := length (a_mbox x) + length (a_granted
 
 (* a released permit goes to the head waiter, if any *)
 Definition regrant (a : aid) (s : sys) : sys :=
-  match get_actor s a with
-  | Some x =>
-      match a_waiters x with
-      | w :: ws =>
-          if free_slot x && negb (a_closed x)
-          then upd_op w (set_o_ph OGranted)
-                 (upd_actor a (fun y => set_a_granted (a_granted y ++ [w]) (set_a_waiters ws y)) s)
-          else s
-      | [] => s end
-  | None => s end.
+  upd_actor a (fun x =>
+    match a_waiters x with
+    | w :: ws => if free_slot x && negb (a_closed x)
+                 then set_a_granted (a_granted x ++ [w]) (set_a_waiters ws x) else x
+    | [] => x end) s.
 
 Definition unwait (a : aid) (o : oid) (s : sys) : sys :=
   upd_actor a (fun y => set_a_waiters (remove_nat o (a_waiters y)) y) s.
@@ -136,6 +131,8 @@ Definition try_send (p : op) (s : sys) : sys :=
       else upd_actor a (fun y => set_a_waiters (a_waiters y ++ [o_id p]) y) s
   | None => s end.
 
+Definition is_granted (x : actor) (o : oid) : bool := existsb (Nat.eqb o) (a_granted x).
+
 (* any later poll of the un-wrapped operation *)
 Definition poll_inner (p : op) (s : sys) : sys :=
   let a := o_tgt p in let o := o_id p in
@@ -143,10 +140,11 @@ Definition poll_inner (p : op) (s : sys) : sys :=
   | None => s
   | Some x =>
       match o_ph p with
-      | OWait => if a_closed x then send_failed p (unwait a o s) else s
-      | OGranted =>
-          if a_closed x then send_failed p (ungrant a o s)
-          else after_push o (o_kind p) (push a o (o_kind p) (ungrant a o s))
+      | OPre =>
+          if a_closed x then send_failed p (unwait a o (ungrant a o s))
+          else if is_granted x o
+               then after_push o (o_kind p) (push a o (o_kind p) (ungrant a o s))
+               else s
       | OWaitReply =>
           match o_slot p with
           | SlVal v => finish o (ROk v) s
@@ -159,10 +157,9 @@ Definition poll_inner (p : op) (s : sys) : sys :=
 (* dropping the un-wrapped future: leave the wait queue / give the permit back *)
 Definition cancel_inner (p : op) (s : sys) : sys :=
   let a := o_tgt p in let o := o_id p in
-  match o_ph p with
-  | OWait => unwait a o s
-  | OGranted => regrant a (ungrant a o s)
-  | _ => s end.
+  match o_ph p, get_actor s a with
+  | OPre, Some x => if is_granted x o then regrant a (ungrant a o s) else unwait a o s
+  | _, _ => s end.
 
 Definition expired (p : op) (s : sys) : bool :=
   match o_deadline p with Some d => N.leb d (s_now s) | None => false end.
@@ -270,13 +267,13 @@ Definition begin (o : oid) (k : okind) (a : aid) (caller : option aid) (tmo : op
         match dd_check s k caller x with
         | DDPanic b cyc => panic_actor b (emit (EvDeadlock b cyc) s0)
         | DDTrack b bid =>
-            let p := mkOp o k a fn caller dl OWait SlEmpty true in
+            let p := mkOp o k a fn caller dl OPre SlEmpty true in
             post_inner o (try_send p
               (set_hop caller o
                  (set_s_graph (g_insert bid (a_id x) (s_graph s0))
                     (set_s_ops (s_ops s0 ++ [p]) s0))))
         | DDNone =>
-            let p := mkOp o k a fn caller dl OWait SlEmpty false in
+            let p := mkOp o k a fn caller dl OPre SlEmpty false in
             post_inner o (try_send p (set_hop caller o (set_s_ops (s_ops s0 ++ [p]) s0)))
         end
       else s
@@ -300,10 +297,13 @@ Definition spawn (cap : nat) (s : sys) : sys :=
 Definition ops_idle (s : sys) (a : aid) : bool :=
   forallb (fun p => negb (o_tgt p =? a) || is_done (o_ph p)) (s_ops s).
 
-(* no strong reference anywhere: agents, queued envelopes, unfinished operations, running hook *)
+(* no strong reference anywhere: agents, queued envelopes, unfinished operations, the running
+   hook (on_start holds the task's own reference, a handler holds its envelope's, and on_stop
+   entered through a stop marker still holds the marker's: `StopGracefully(_)` does not move it
+   out of the matched message, which lives until the arm ends) *)
 Definition refs_gone (s : sys) (a : aid) (x : actor) : bool :=
   (a_ext x =? 0) && (length (a_mbox x) =? 0) && ops_idle s a
-  && match a_pc x with PStart | PHandle _ _ => false | _ => true end.
+  && match a_pc x with PStart | PHandle _ _ | PStop _ CStopMark => false | _ => true end.
 
 Definition enter_stop (a : aid) (killed : bool) (c : cause) (s : sys) : sys :=
   emit (EvStopEnter a killed)
